@@ -3,6 +3,14 @@
 The task text contains only the property (statement, quantifier, anchored files); nothing from /verif."""
 import json, os, subprocess, sys
 pid = sys.argv[1]; suffix = sys.argv[2] if len(sys.argv) > 2 else ""; focus = sys.argv[3] if len(sys.argv) > 3 else ""
+import glob
+prior = []
+for m in sorted(glob.glob("/verif/seeded/%s/*/meta.json" % pid)):
+  try:
+    prior.append("- " + json.load(open(m)).get("breaks", "")[:300])
+  except Exception:
+    pass
+PRIOR = ("\n## Already tried in an earlier round (do NOT repeat these or close variants of them)\n\n" + "\n".join(prior) + "\n\nThis round, prefer changes that are harder to notice: two cooperating sites that each look fine alone; behaviour that depends on\naccumulated state or on the order of earlier operations; rarely used API variants, flags or code paths; boundary values of sizes,\ncounts and identifiers; error/exception paths; interactions between two features.\n") if prior and suffix else ""
 p = [json.loads(l) for l in open("/verif/properties.jsonl") if l.strip()]
 p = [x for x in p if x["id"] == pid][0]
 wt = "/tmp/brk-%s%s" % (pid.lower(), suffix)
@@ -39,7 +47,7 @@ plausible maintenance edit (refactor, "optimisation", off-by-one, wrong operator
 bookkeeping, a guard moved) and must need something SPECIFIC to manifest — a particular interleaving or ordering, a fault at a
 particular point, a multi-step sequence of operations, an unusual input or boundary value, or two cooperating sites that each look
 fine alone — not something that any ordinary use would expose at once. Spread the three over different mechanisms/files listed above.
-%(focus)s
+%(focus)s%(prior)s
 For each change n = 1, 2, 3 deliver in %(wt)s/out/<n>/ :
 * `patch.diff` — output of `git diff` against the clean tree (source files only);
 * `demo.py` — a small standalone program, run as `cd <tree> && /venv/bin/python out/<n>/demo.py`, that exits 0 on the clean tree and
@@ -54,5 +62,5 @@ unchanged from baseline), then leave the worktree clean (`git checkout -- .`; ou
 Reply with a short summary of the three changes. If the clean tree already violates the property in the area you looked at, mention it
 briefly but do not build a change on top of an existing defect.
 """ % dict(wt=wt, title=p["title"], statement=p["statement"], qtext=p["quantifier"]["text"], files=", ".join(p["anchors"]["files"]), mech=mech,
-           focus=("\nFocus: " + focus + "\n") if focus else ""))
+           focus=("\nFocus: " + focus + "\n") if focus else "", prior=PRIOR))
 print(wt)
